@@ -197,7 +197,7 @@ def run(case, out):
 
         # ---- leaf layer
         if ndel == 0 and model.ndeleted_total == 0 and not is_final:
-            for field, words in (("t", WORDS), ("w", ["x", "y", "xy"])):
+            for field, words in (("t", WORDS), ("w", ["x", "y", "xy", "a", "ab"]), ("t", ["a", "ab"])):
                 for word in words:
                     exp = ref_term_scores(docs, hist.get("schema"), field, word, wcfg)
                     if exp is None:
